@@ -578,7 +578,8 @@ int mp_kronecker(const integer_class &a, const integer_class &n)
     */
 
     if (n == 0) {
-        throw std::runtime_error("second arg of Kronecker cannot be zero");
+        // (a | 0) is 1 if a is a unit, 0 otherwise (same as mpz_kronecker)
+        return (a == 1 || a == -1) ? 1 : 0;
     }
 
     // Compute (a | u)
